@@ -3,3 +3,4 @@ pub mod codec;
 pub mod obs;
 pub mod server;
 pub mod steps;
+pub mod zoo;
